@@ -9,6 +9,7 @@ mod c08;
 mod c09;
 mod c10;
 mod c11;
+mod c12;
 mod c20;
 mod reftest;
 
@@ -57,6 +58,7 @@ fn main() {
         "C09" => c09::run(report),
         "C10" => c10::run(report),
         "C11" => c11::run(report),
+        "C12" => c12::run(report),
         "C20" => c20::run(report),
         _ => {
             eprintln!("unknown property {id}");
